@@ -514,7 +514,7 @@ CHECK = Check(
         "converse law is checked as build(match(build(endpoint, values))) = build(endpoint, values): a URL that is not in built form ('/007' for <int>) matches but rebuilds canonically ('/7'), by design",
         "negative min / max cannot be written in a rule string (werkzeug's converter-argument grammar has no sign), so signed converters are exercised with non-negative bounds",
         "known finding F04a: AnyConverter.to_url does not percent-encode (negation witness toPython_toUrl_any_full_false)",
-        "match_build is proved at rule level for rules without path converter and without subdomain rule (rule_build_match_partial: the rule's own parts admit what the rule builds, groups = decoded converter outputs); the map-level law (rule selection by suitable_for / build_compare_key on non-overlapping maps), the trailing path converter case and build_match_fixpoint are OPEN (see Props/C04.lean) and validated by stream build-match only",
+        "match_build is proved at rule level for every rule of the grammar without subdomain rule (rule_build_match_partial: isolating converters and one path converter; the rule's own parts admit what the rule builds, groups = decoded converter outputs); the map-level law (rule selection by suitable_for / build_compare_key on non-overlapping maps) and build_match_fixpoint are OPEN (see Props/C04.lean) and validated by stream build-match only",
     ],
     trusted_extra=["CPython urllib.parse / int / float / uuid for the modelled primitives (validated by the streams, not verified)"],
     quick_budget=8000,
@@ -522,8 +522,8 @@ CHECK = Check(
 )
 
 MANIFEST = {
-    "level_text": "Machine-checked Lean 4 theorems about the model of URL building: percent-decoding undoes the builder's quoting for every text (unquote_quote: decide over all 256 bytes lifted to all strings by induction, UTF-8 round trip from Lean core), and to_python(unquote(to_url(v))) = v for every converter on its canonical domain - strings and paths (all text), ints incl. signed and zero-padded fixed_digits with min/max (decimal printing and reading proved inverse over the generated Unicode digit table), uuid, any, floats as canonical decimal text; and at rule level the rule's own compiled parts directly admit the percent-decoded path the rule builds, extracting exactly the decoded converter outputs (rule_build_match_partial, rules without path converter). The map-level build/match laws are validated by a differential stream over non-overlapping maps (model vs real code, character for character) with the property oracle on the real code.",
-    "level_note": "Trusted: Lean kernel; extract.py; harness; CPython urllib.parse/int/float/uuid (modelled, stream-validated). Partial: match_build is proved per converter and per rule (no path converter); rule selection at map level and build_match_fixpoint are OPEN (stream-validated only); float <-> text is Python's. Known finding F04a (any converter is not percent-encoded).",
+    "level_text": "Machine-checked Lean 4 theorems about the model of URL building: percent-decoding undoes the builder's quoting for every text (unquote_quote: decide over all 256 bytes lifted to all strings by induction, UTF-8 round trip from Lean core), and to_python(unquote(to_url(v))) = v for every converter on its canonical domain - strings and paths (all text), ints incl. signed and zero-padded fixed_digits with min/max (decimal printing and reading proved inverse over the generated Unicode digit table), uuid, any, floats as canonical decimal text; and at rule level the rule's own compiled parts directly admit the percent-decoded path the rule builds, extracting exactly the decoded converter outputs (rule_build_match_partial: isolating converters and one path converter). The map-level build/match laws are validated by a differential stream over non-overlapping maps (model vs real code, character for character) with the property oracle on the real code.",
+    "level_note": "Trusted: Lean kernel; extract.py; harness; CPython urllib.parse/int/float/uuid (modelled, stream-validated). Partial: match_build is proved per converter and per rule; rule selection at map level and build_match_fixpoint are OPEN (stream-validated only); float <-> text is Python's. Known finding F04a (any converter is not percent-encoded).",
     "technique": "Lean 4 proof (decide +kernel over all bytes, induction over byte/digit lists, core UTF-8 and Nat.toDigits lemmas) + model/code correspondence",
     "design_ref": "DESIGN.md section 4, C04",
 }
